@@ -320,6 +320,128 @@ def real_decode_guarded(enc, W, H, items, x, timeout=60):
     return dict(error=(p.stderr or p.stdout)[-400:])
 
 
+_SEARCH_CODE = """
+import sys, json, time, random, itertools
+sys.path.insert(0, @ROOT@)
+from harness import pack_common as P
+from harness import ibl_reference as R
+A = json.loads(sys.argv[1])
+enc, W, H, sizes, with_ref, budget = A["enc"], A["W"], A["H"], [tuple(s) for s in A["sizes"]], A["with_reference"], A["budget_s"]
+ordered = [tuple(s) for s in A.get("ordered", [])]
+rnd = random.Random(A.get("seed", 0))
+t0 = time.time()
+tried = 0
+found = None
+
+
+def attempt(items, x, W=None, H=None):
+    global tried, found
+    W = A["W"] if W is None else W
+    H = A["H"] if H is None else H
+    tried += 1
+    try:
+        inst, y, rows, nb = P.real_decode(enc, W, H, items, x)
+    except (ValueError, IndexError):
+        return
+    ok, why = P.py_feasible(rows, items, W, H, nb)
+    if not ok:
+        found = dict(kind="feasibility", enc=enc, W=W, H=H, items=[list(i) for i in items], x=list(x), observed=dict(rows=rows, n_bins=nb, why=why))
+    elif with_ref:
+        exp, enb = (R.ref_decode_1 if enc == 1 else R.ref_decode_2)(list(x), [(w, h) for (w, h, _) in items], W, H, 10 * len(x) + 10)
+        if [list(r) for r in exp] != rows or enb != nb:
+            found = dict(kind="reference", enc=enc, W=W, H=H, items=[list(i) for i in items], x=list(x), observed=dict(decoded=rows, expected=[list(r) for r in exp]))
+
+
+def as_instance(seq):
+    # a sequence of (w, h) boxes -> item types (equal sizes up to rotation share a type) and the id sequence
+    types, ids = [], []
+    for (w, h) in seq:
+        key = (w, h) if (w, h) in types else ((h, w) if (h, w) in types else None)
+        if key is None:
+            types.append((w, h))
+            key = (w, h)
+        ids.append((types.index(key) + 1) * (1 if key == (w, h) else -1))
+    items = [(w, h, sum(1 for i in ids if abs(i) == k + 1)) for k, (w, h) in enumerate(types)]
+    return items, ids
+
+
+# phase 0: the boxes of the step model in row order, then the new item (all sign patterns)
+if ordered:
+    items, ids = as_instance(ordered)
+    for signs in itertools.product((1, -1), repeat=len(ids)):
+        if found is not None or time.time() - t0 > budget / 3:
+            break
+        attempt(items, [i * s_ for i, s_ in zip(ids, signs)])
+# phase 1: every sequence of up to len(ordered) boxes over the model's sizes
+if found is None and ordered:
+    base = sorted(set(ordered))
+    for k in range(2, len(ordered) + 1):
+        for seq in itertools.product(base, repeat=k):
+            if found is not None or time.time() - t0 > 2 * budget / 3:
+                break
+            items, ids = as_instance(seq)
+            attempt(items, ids)
+            if found is None:
+                attempt(items, [-i for i in ids])
+# phase 2: random small instances - alternately on the coordinate grid of the model and uniformly random tiny bins
+flip = 0
+while time.time() - t0 < budget and found is None:
+    flip += 1
+    W2, H2 = A["W"], A["H"]
+    if flip % 2 and len(sizes) >= 2:
+        k = rnd.randint(2, 4)
+        types = rnd.sample(sizes, min(k, len(sizes)))
+    else:
+        W2, H2 = rnd.randint(3, 10), rnd.randint(3, 10)
+        mx, mn = max(W2, H2), min(W2, H2)
+        types = []
+        for _ in range(rnd.randint(2, 3)):
+            w, h = rnd.randint(1, mx), rnd.randint(1, mx)
+            if w > mn and h > mn:
+                h = rnd.randint(1, mn)
+            types.append((w, h))
+        if not all((w <= W2 and h <= H2) or (h <= W2 and w <= H2) for (w, h) in types):
+            continue
+    items = [(w, h, rnd.choice((1, 1, 2, 2, 3))) for (w, h) in types]
+    if sum(m for _, _, m in items) > 7:
+        continue
+    x = [i + 1 for i, it in enumerate(items) for _ in range(it[2])]
+    rnd.shuffle(x)
+    attempt(items, [v if rnd.random() < 0.5 else -v for v in x], W2, H2)
+print("RESULT " + json.dumps(dict(found=found, tried=tried)))
+"""
+
+
+def grid_search(enc, W, H, sizes, with_reference, budget_s=60, seed=0, ordered=()):
+    """Witness search for an inductive-step counterexample: random small instances whose item sizes come from the coordinate grid of
+    the step model (so that edges line up the way they do in the model), decoded by the REAL compiled decoder in one child process
+    (a hang only costs the time limit) and checked for feasibility / against the reference rule.  Returns (witness or None, tried)."""
+    import json
+    import os
+    import subprocess
+    root = os.path.dirname(os.path.dirname(os.path.abspath(__file__)))
+    py = os.path.join(root, ".venv", "bin", "python")
+    procs = []
+    for k in range(6):          # six children with different random seeds; the first witness wins
+        payload = json.dumps(dict(enc=enc, W=W, H=H, sizes=[list(s_) for s_ in sizes], with_reference=bool(with_reference), budget_s=budget_s, seed=seed + k,
+                                  ordered=[list(o) for o in ordered] if k == 0 else []))
+        procs.append(subprocess.Popen([py, "-c", _SEARCH_CODE.replace("@ROOT@", repr(root)), payload], stdout=subprocess.PIPE, stderr=subprocess.DEVNULL, text=True))
+    found, tried = None, 0
+    for p in procs:
+        try:
+            out, _ = p.communicate(timeout=budget_s + 90)
+        except subprocess.TimeoutExpired:
+            p.kill()
+            continue
+        for line in out.splitlines():
+            if line.startswith("RESULT "):
+                r = json.loads(line[7:])
+                tried += r["tried"]
+                if found is None and r["found"] is not None:
+                    found = r["found"]
+    return found, tried
+
+
 def small_witness_prefs(nd):
     """preference constraints for counterexample models: the real constructor's lower-bound routine loops over
     0..bin_height/2, so replayable witnesses need a small bin height (and preferably small everything)"""
